@@ -28,7 +28,7 @@ DIMS_T = DIMS_Q + [(3, 1), (1, 3), (3, 3), (4, 2), (2, 4), (5, 3), (2, 6)]
 def cells(tier, seed):
     out = []
     dims = DIMS_Q if tier == "quick" else DIMS_T
-    reps = 2 if tier == "quick" else 6
+    reps = 2 if tier == "quick" else 10
     for ck in build.COND_KINDS:
         for (Dx, Dy) in dims:
             if ck.startswith("identity") and Dx != Dy:
